@@ -9,6 +9,7 @@ pub mod c05;
 pub mod c19;
 pub mod c20;
 pub mod c20b;
+pub mod pyfront;
 pub mod mfamily;
 pub mod c04;
 pub mod c06;
